@@ -18,7 +18,7 @@ import copy
 import json
 import os
 
-from .srcmodel import clone, FuncInfo, U, strip_docstring, target_names, walk_shallow
+from .srcmodel import clone, FuncInfo, U, strip_docstring, target_names, walk_shallow, AnalysisError
 
 INVENTORY = os.path.join(os.path.dirname(os.path.abspath(__file__)), 'inventory.json')
 _inv = None
@@ -797,6 +797,14 @@ class Normaliser:
         C[K] become the value.  When the key does NOT determine the value the code is left alone and the fact is recorded in
         self.memo_issues - the memoised value of one iteration would be reused for another it does not belong to."""
         local_dicts = set()
+        object_tables = set()
+        if not getattr(self, '_object_memos_done', False):
+            self._object_memos_done = True
+            from .engines import memo
+            try:
+                object_tables = memo.judge(self, node)
+            except AnalysisError:
+                raise
         for n in ast.walk(node):
             if isinstance(n, ast.Assign) and len(n.targets) == 1 and isinstance(n.targets[0], ast.Name) and \
                     ((isinstance(n.value, ast.Dict) and not n.value.keys) or (isinstance(n.value, ast.Call) and U(n.value.func) == 'dict' and not n.value.args)):
@@ -836,6 +844,7 @@ class Normaliser:
                                 local_dicts.add('self.' + X)
         except Exception:
             pass
+        local_dicts |= object_tables
         if not local_dicts:
             return
 
